@@ -163,8 +163,8 @@ impl Check for C09Shuttle {
 
     fn runs(&self, tier: Tier) -> u64 {
         match tier {
-            Tier::Quick => 60_000,
-            Tier::Thorough => 6_000_000,
+            Tier::Quick => 30_000,
+            Tier::Thorough => 3_000_000,
         }
     }
 
